@@ -63,6 +63,27 @@ class MyDict(dict):
     pass
 
 
+class Nesting:
+    """a value whose pickling runs application code (__getstate__) that serializes ANOTHER value through the same serializer
+    object - a lazily computed attribute looked up in the same cache, a logging hook; what the check installs in `hook` is
+    called with that other value"""
+    hook = None
+
+    def __init__(self, payload, other):
+        self.payload = payload
+        self.other = other
+
+    def __getstate__(self):
+        if Nesting.hook is not None:
+            Nesting.hook(self.other)
+        return {"payload": self.payload, "other": self.other}
+
+    def __eq__(self, o):
+        return type(o) is Nesting and same(self.payload, o.payload) and same(self.other, o.other)
+
+    __hash__ = None
+
+
 SUBS = {"MyInt": MyInt, "MyStr": MyStr, "MyBytes": MyBytes, "MyList": MyList, "MyDict": MyDict}
 
 CODECS = {
@@ -147,6 +168,8 @@ def build(d):
     if t == "shared":
         x = build(d[1])
         return [x, x, {"again": x}]
+    if t == "nesting":
+        return Nesting(build(d[1]), build(d[2]))
     if t == "sub":
         v = SUBS[d[1]](build(d[2]))
         if d[3] is not None and d[1] in ("MyList", "MyDict"):
@@ -322,6 +345,15 @@ def cross_strategy(tier):
 
 def _check_one(sd, cfg, v, ctx=""):
     what = "%r on %s%s" % (cfg, _short(v), ctx)
+    # (a value of the Nesting kind serializes another value through the same serializer object while it is being pickled)
+    Nesting.hook = lambda other: sd.serialize("another-key", other)
+    try:
+        return _check_one_(sd, cfg, v, ctx, what)
+    finally:
+        Nesting.hook = None
+
+
+def _check_one_(sd, cfg, v, ctx, what):
     try:
         payload, flags = sd.serialize("key", v)
     except Exception as e:  # noqa: BLE001
@@ -341,6 +373,21 @@ def _check_one(sd, cfg, v, ctx=""):
     if not same(v, back):
         raise Violation(["round-trip", type(v).__name__, cfg[0]], "round trip gave %s (%s), expected %s: %s"
                         % (_short(back), type(back).__name__, type(v).__name__, what))
+    # what comes back belongs to the caller: reading the same stored item again gives another object (for anything that can be
+    # changed in place), still equal to what was stored after the caller has changed the first one
+    if isinstance(back, (list, dict, set, bytearray)) or hasattr(back, "__dict__"):
+        again = sd.deserialize("key", w, flags)
+        if again is back:
+            raise Violation(["result-handed-out-twice", type(v).__name__, cfg[0]], "deserializing the same item twice returned the very same %s object: %s" % (type(back).__name__, what))
+        if isinstance(back, list):
+            back.append("changed by the caller")
+        elif isinstance(back, dict):
+            back["changed by the caller"] = 1
+        elif isinstance(back, (set, bytearray)):
+            back.clear()
+        third = sd.deserialize("key", w, flags)
+        if not same(v, third):
+            raise Violation(["result-changed-later", type(v).__name__, cfg[0]], "after the caller changed the first result, the same item reads %s: %s" % (_short(third), what))
     labels = [cfg[0], type(v).__name__]
     proto = cfg[1] if cfg[0] in ("pickle", "legacy-pm-version") else None
     if proto is not None and flags & S.FLAG_PICKLE and isinstance(payload, bytes):
@@ -474,7 +521,10 @@ def grid_cases(tier, seed):
                # values that contain themselves, reach an object twice, or point back at their parent
                ("cyclic-list", []), ("cyclic-list", [("int", 1), ("str", "x" * 500)]), ("cyclic-dict", []), ("cyclic-dict", [[("str", "k"), ("bytes", b"v" * 450)]]),
                ("back-pointer", [("int", 7)]), ("back-pointer", [("str", "y" * 600)]), ("shared", ("list", [("int", 1), ("int", 2)])),
-               ("shared", ("sub", "MyList", ("list", [("int", 1)]), "n")), ("shared", ("bytes", b"z" * 450))]
+               ("shared", ("sub", "MyList", ("list", [("int", 1)]), "n")), ("shared", ("bytes", b"z" * 450)),
+               # values whose pickling serializes another value through the same serializer object
+               ("nesting", ("str", "outer"), ("list", [("int", 1), ("int", 2), ("int", 3)])), ("nesting", ("bytes", b"o" * 500), ("dict", [[("str", "session"), ("str", "bob")]])),
+               ("list", [("nesting", ("int", 1), ("str", "x" * 450)), ("str", "after")]), ("nesting", ("list", [("int", 7)]), ("nesting", ("int", 2), ("bytes", b"deep")))]
     configs += [("module-compressed",), ("module-pickle",)]
     # CompressedSerde around a serializer of the application's own
     configs += [("versioned", 2)] + [("compressed", codec, ml, ("versioned", p)) for codec in ("zlib", "identity") for ml in (0, 1, 10, 400) for p in (0, 5)]
